@@ -295,6 +295,10 @@ func implC17(line string) string {
 		return implI(f)
 	case "P":
 		return implP(f)
+	case "H":
+		return implH(f)
+	case "B":
+		return implB(f)
 	}
 	return "bad-request"
 }
@@ -305,12 +309,29 @@ func genC17(c *h.Ctx) {
 	for d := 0; d <= 3; d++ {
 		c.Add(fmt.Sprintf("P caller %d", d), "probe:caller")
 		c.Add(fmt.Sprintf("P evalid %d", d), "probe:evalid")
+		for _, k := range []string{"stackLimit", "traceLimit", "random", "debugger", "interrupt"} {
+			c.Add(fmt.Sprintf("H %s %d", k, d), "handle:"+k)
+		}
+		for _, k := range []string{"slice", "sliceproto", "map", "multi", "leak"} {
+			c.Add(fmt.Sprintf("B %s %d", k, d), "bridge:"+k)
+		}
 	}
 	// fixed seeds: one per feature, then the listed deviations
 	for i, src := range fixedHistories() {
 		for depth := 1; depth <= 2; depth++ {
 			if l, ok := lineS(depth, src); ok {
 				c.Add(l, "S:fixed", fmt.Sprintf("S:fixed:%d", i))
+			}
+		}
+	}
+	// fixed isolation pairs at every copy shape and side
+	for i, hm := range fixedIsolation() {
+		exp := expI(hm[0], hm[1])
+		for _, parents := range []string{"0", "0.1", "0.0", "0.1.2", "0.0.1"} {
+			n := len(strings.Split(parents, "."))
+			for side := 0; side <= n; side++ {
+				c.Add(fmt.Sprintf("I %s %d %s %s exp:%s", parents, side, hex.EncodeToString([]byte(hm[0])), hex.EncodeToString([]byte(hm[1])), exp),
+					"I:fixed", fmt.Sprintf("I:fixed:%d", i))
 			}
 		}
 	}
